@@ -4,6 +4,9 @@ import os
 import re
 import time
 import traceback
+import threading
+
+_RULE_LOCK = threading.Lock()   # rule modules keep per-body role tables in module globals: evaluate one tree at a time
 
 RULES = []
 
@@ -116,6 +119,11 @@ class Ctx:
 
 
 def run_rules(facts, prop, tier):
+    with _RULE_LOCK:
+        return _run_rules(facts, prop, tier)
+
+
+def _run_rules(facts, prop, tier):
     ctx = Ctx(facts, prop, tier)
     ran = []
     for rd in RULES:
